@@ -99,6 +99,21 @@ def run(ctx):
     ctx.sample(dict(op="new -n 24", entropy="ff" * 32, phrase=" ".join(wl[j] for j in pyref.bip39_indices(b"\xff" * 32))))
     ctx.exhaustive["requested lengths 0..40"] = True
 
+    # a ONE-SHOT entropy failure inside a worker of a multi-threaded vanity search (all other requests succeed): the first
+    # message on the channel is that error, so the command must fail and print nothing (prefix far too long to be found)
+    one = []
+    for kfail in (1, 2):
+        for j in (1, 2, 16):
+            script = os.path.join(tmp, "oneshot%d_%d" % (kfail, j))
+            open(script, "w").write("00\n" * kfail + "fail\n")
+            one.append(dict(args=["new", "--vanity-prefix", "0xfffffff", "-j", str(j)],
+                            env=dict(LD_PRELOAD=shim, HDW_SHIM_SCRIPT=script, HDW_SHIM_DEFAULT="counter"), timeout=25, k=kfail, j=j))
+    for rn, r in zip(one, ctx.cli(one, timeout=25)):
+        ctx.count("entropy-failure/one-shot-in-worker")
+        ctx.distinct(("oneshot", rn["k"], rn["j"]))
+        if r.cls != "error" or r.stdout != b"":
+            ctx.violation("entropy-failure-in-one-worker", dict(op="new --vanity-prefix 0xfffffff", fail_at_request=rn["k"], threads=rn["j"]),
+                          "error exit, nothing printed", str(r)[:300])
     # without the shim: independent invocations differ, and parse back
     k = 32 if not thorough else 200
     res = ctx.cli([dict(args=["new", "-n", str(rng.choice(list(LENS)))]) for _ in range(k)])
